@@ -14,7 +14,9 @@ Definition max_dec_bit_len : Z := 1144.        (* maxBitLen + BigDecimalPrecisio
 
 Definition bitlen (z : Z) : Z := if z =? 0 then 0 else Z.log2 (Z.abs z) + 1.
 Definition bd_fits (z : Z) : bool := bitlen z <=? max_dec_bit_len.       (* assertMaxBitLen *)
-Definition upper_limit18 : Z := 2 ^ 256 * P18.                            (* LegacyDec upperLimit *)
+(* LegacyDec upperLimit: init() builds "2^256 * 10^18 - 1" as a raw mantissa (checked against the Go code by
+   the C12 correspondence: raw 2^256*10^18 - 1 is accepted by AddMut, raw 2^256*10^18 panics) *)
+Definition upper_limit18 : Z := 2 ^ 256 * P18 - 1.
 Definition d_fits (z : Z) : bool := (z <=? upper_limit18) && (- upper_limit18 <=? z). (* IsInValidRange *)
 
 (* -- rounding helpers, parametric in the chopped precision p (10^36 or 10^18) -- *)
